@@ -71,7 +71,7 @@ def read_ase(path):
 
 
 # ------------------------------------------------------------------ setups
-def setup(engine, root, masses_idx, pos, vel, temperature, int_masses=False):
+def setup(engine, root, masses_idx, pos, vel, temperature, int_masses=False, ase_integ=None):
     """Build the engine and a source frame. Returns (eng, source file, masses[amu or reduced], reader, extra)."""
     n = len(pos)
     els = [EL[i % len(EL)] for i in masses_idx]
@@ -106,7 +106,8 @@ def setup(engine, root, masses_idx, pos, vel, temperature, int_masses=False):
             fh.write(ek.g96_text(pos, vel, [3.0, 3.0, 3.0], names=els))
         return eng, src, amu, read_g96, {"names": els}
     if engine == "ase":
-        eng = ek.make_ase(root, temperature=temperature)
+        integ = ase_integ or "velocityverlet"  # "velocityverlet" | "langevin" | "langevin-fixcm"
+        eng = ek.make_ase(root, temperature=temperature, integrator=integ.split("-")[0], fixcm=integ.endswith("fixcm"))
         src = os.path.join(src_dir, "frame.traj")
         ek.ase_frame(src, els, amu, pos, vel)
         return eng, src, amu, read_ase, {"names": els}
@@ -145,6 +146,7 @@ def call_cases(draw):
         "zero_momentum": draw(st.sampled_from([True, False, None])),
         "seed": draw(st.integers(0, 2**31)),
         "int_masses": draw(st.booleans()),
+        "ase_integ": draw(st.sampled_from(["velocityverlet", "langevin", "langevin-fixcm"])),
     }
 
 
@@ -153,7 +155,7 @@ def body_call(rec, c):
     root = isolate.mkscratch("vel_")
     try:
         T = c["temperature"] if engine != "turtlemd" else c["temperature"] / 300.0
-        eng, src, masses, reader, extra = setup(engine, root, c["masses_idx"], c["pos"], c["vel"], T, c.get("int_masses", False))
+        eng, src, masses, reader, extra = setup(engine, root, c["masses_idx"], c["pos"], c["vel"], T, c.get("int_masses", False), c.get("ase_integ"))
         eng.rgen = np.random.default_rng(c["seed"])
         vs = {"zero_momentum": c["zero_momentum"]} if c["zero_momentum"] is not None else {}
         src_bytes = open(src, "rb").read()
@@ -240,6 +242,7 @@ def body_call(rec, c):
 def stat_job(job):
     pid, engine, T, masses_idx, zm, ndraw, seed = job[:7]
     int_masses = job[7] if len(job) > 7 else False
+    ase_integ = job[8] if len(job) > 8 else None
     rec = Rec(pid)
     root = isolate.mkscratch("vst_")
     try:
@@ -247,7 +250,7 @@ def stat_job(job):
         pos = [[1.0 + 2.0 * i, 2.0, 3.0] for i in range(n)]
         vel = [[0.0] * 3 for _ in range(n)]
         Te = T if engine != "turtlemd" else T / 300.0
-        eng, src, masses, reader, _ = setup(engine, root, masses_idx, pos, vel, Te, int_masses)
+        eng, src, masses, reader, _ = setup(engine, root, masses_idx, pos, vel, Te, int_masses, ase_integ)
         eng.rgen = np.random.default_rng(seed)
         kbt = kb_of(engine) * Te
         zs = []
@@ -259,7 +262,7 @@ def stat_job(job):
         z = np.array(zs)  # (ndraw, n, 3)
         M = masses.sum()
         expect = np.array([1.0 - (m / M if zm else 0.0) for m in masses])  # variance factor per atom
-        key = [engine, T, masses_idx, zm]
+        key = [engine, T, masses_idx, zm] + ([ase_integ] if ase_integ else [])
         nt = len(set(masses_idx)) >= 2 or zm
         worst = 0.0
         for i in range(n):
@@ -318,6 +321,9 @@ def run(ctx):
                 jobs.append((ctx.pid, engine, T, midx, zm, nd, derive_seed(ctx.seed, "C16", engine, T, zm) % 2**31))
             if engine in ("gromacs", "turtlemd"):
                 jobs.append((ctx.pid, engine, 300.0, [1, 2, 3], False, nd, derive_seed(ctx.seed, "C16", engine, "int") % 2**31, True))
+        # ASE with the Langevin integrator (with and without fixcm): the integrator setting must not change the distribution drawn
+        for integ, zm in (("langevin-fixcm", False), ("langevin", True)):
+            jobs.append((ctx.pid, "ase", 300.0, [0, 1, 3], zm, nd, derive_seed(ctx.seed, "C16", "ase", integ) % 2**31, False, integ))
         for r in pmap(ctx, stat_job, jobs):
             ctx.merge(r)
 
